@@ -526,7 +526,8 @@ Lemma merge_anatomy c s ord : Inv s -> merge_ready c s ord ->
     unlink_all (m_dir m) (m_stats m) sel (SFsync (FHint (m_id m)) :: SFsync (FData (m_id m)) :: m_trace m) = (d2, x2, t2) /\
     d2 = dir_filter S (m_dir m) /\ dir_get d2 (m_last m + 1) = None /\
     exists s', merge c s ord = ROk (s', tt, rev t2 ++ [SCreate (FData (m_last m + 1))]) /\
-               s_dir s' = d2 ++ [(m_last m + 1, empty_file)] /\ Inv s' /\ (forall k, abs s' k = abs s k).
+               s_dir s' = d2 ++ [(m_last m + 1, empty_file)] /\ Inv s' /\ (forall k, abs s' k = abs s k) /\
+               s_last s' = m_last m + 1 /\ s_active s' = m_last m + 1 /\ s_written s' = 0.
 Proof.
   intros HI Hready. pose proof HI as (Hs & Hle & Hh & Hst & Hact & Hfa & HC).
   destruct (select_ok c s HI) as (sel0 & bound & Hsel & Hmem).
@@ -584,7 +585,7 @@ Proof.
   exists sel0, bound, m, M, d2, x2, t2. cbv zeta. fold sel. fold S. fold d0. fold m0.
   split; [exact HS|]. split; [exact Hrow|]. split; [exact HSle|]. split; [exact HLI0|]. split; [exact Hloop|]. split; [exact HLI|].
   split; [exact E1|]. split; [exact Eun|]. split; [exact Ed2|]. split; [exact Hn2|].
-  eexists. split; [|split; [|split; [exact HI'|exact Habs]]].
+  eexists. split; [|split; [|split; [exact HI'|split; [exact Habs|cbn [s_last s_active s_written]; auto]]]].
   - unfold merge, merge_with. rewrite Hsel. rewrite (Hready sel0 Hsel). cbn [negb]. fold sel.
     unfold create_pair. rewrite (ids_le_get_none _ _ (s_last s + 1) Hle) by lia.
     rewrite dir_set_new by (apply (ids_le_get_none _ (s_last s)); [exact Hle|lia]). fold d0. fold m0. rewrite Hloop, Eun.
@@ -658,7 +659,7 @@ Proof.
   set (sel := sort_ids sel0) in *. set (S := fun g => mem g sel) in *. set (id0 := s_last s + 1) in *.
   set (d0 := s_dir s ++ [(id0, mkFile [] (Some []))]) in *.
   set (m0 := mkM d0 (s_idx s) (s_stats s) id0 0 id0 [SCreate (FHint id0); SCreate (FData id0)]) in *.
-  destruct Hana as (HS & Hrow & HSle & HLI0 & Hloop & HLI & E1 & Eun & Ed2 & Hn2 & s' & Hm & Hd' & HI' & Habs).
+  destruct Hana as (HS & Hrow & HSle & HLI0 & Hloop & HLI & E1 & Eun & Ed2 & Hn2 & s' & Hm & Hd' & HI' & Habs & _).
   rewrite Hm. intros Hwf.
   pose proof HI as (Hs & Hle & Hh & _ & _ & _ & _).
   pose proof (inv_good s HI) as Hg0.
